@@ -479,6 +479,7 @@ class Executor:
                 continue
             k = path.clone()
             k.pc.append(c)
+            k.dstate.setdefault("decided", {})[self.dom.cond_key(fk.cond)] = branch
             self.dom.assume(k, c, fk.cond, branch)
             if fk.refine:
                 fk.refine(k, branch)
@@ -492,6 +493,11 @@ class Executor:
         """decide a condition: True/False, or raise ForkRequest"""
         if isinstance(c, bool):
             return c
+        dec = path.dstate.get("decided")
+        if dec:
+            k = self.dom.cond_key(c)
+            if k in dec:
+                return dec[k]
         r = self.dom.truth(path, c)
         if r is None:
             raise ForkRequest(c)
